@@ -54,7 +54,7 @@ func verifPINVStore(w1, wr, wp int) *verifPStore {
 		ps.q2 = append(ps.q2, verifEntry{id: id, release: i < wr, packet: p, written: true})
 	}
 	// an inbound marker is none of AdoptSession's business
-	if verifChoose("marker", 2) == 1 {
+	if verifChoose("marker", verifParam("markers", 2)) == 1 {
 		recs = append(recs, rec{0x10000 | 0x0102, verifRecord([]byte{0x50, 2, 1, 2}, 2)})
 	}
 	ps.maxSigma = s1 + uint64(w1)
@@ -66,7 +66,7 @@ func verifPINVStore(w1, wr, wp int) *verifPStore {
 	}
 	// List order: forward, reverse, or rotated
 	n := len(recs)
-	switch verifChoose("listorder", 3) {
+	switch verifChoose("listorder", verifParam("orders", 3)) {
 	case 0:
 		for i := 0; i < n; i++ {
 			ps.store.put(recs[i].key, recs[i].val)
@@ -94,7 +94,7 @@ func verifObserveClient(c *Client, store *verifStore, q1, q2 []verifEntry, tag s
 func verifAdoptConfig() *Config {
 	d := &verifDialer{}
 	cfg := &Config{Dialer: d.dial}
-	switch verifChoose("maxima", 3) {
+	switch verifChoose("maxima", verifParam("maxcls", 3)) {
 	case 0:
 		cfg.AtLeastOnceMax, cfg.ExactlyOnceMax = -1, -1 // documented: default 16,384
 	case 1:
